@@ -6,7 +6,7 @@
 //! `(help (cmd ...) (width N) (which short|long|usage|(flag-h p..)|(flag-help p..)|(sub-help p..)))`
 //! `(helpf32 TAKEN_MAX W_MAX)`  -- sweep of the f32 comparison of `arg_next_line_help`
 use crate::hex;
-use crate::modes::parse::{build_cmd_with, EnvGuard};
+use crate::modes::parse::{build_arg, build_cmd_with, EnvGuard};
 use crate::sexp::Sx;
 use clap::builder::PossibleValue;
 use clap::error::ErrorKind;
@@ -83,6 +83,30 @@ fn cmd_ext(mut c: Command, items: &[Sx]) -> Command {
     }
     // a fixed trailer keeps the trailing padding of the last row from being trimmed away
     c.after_help("zz")
+}
+
+/// The command of a help case.  Items are applied in the order of the spec, so that a `(x-next-heading H)` /
+/// `(x-next-heading)` marker between two `(arg ..)` items is a call of `Command::next_help_heading` between the
+/// two `Command::arg` calls (at every level).  Everything that is not an arg, a subcommand or a marker goes
+/// through the standard builder first (none of it reads or advances the builder's running state).
+fn build_help_cmd(items: &[Sx], env: &mut EnvGuard) -> Command {
+    let ordered = |h: &str| h == "arg" || h == "sub" || h == "x-next-heading";
+    let mut base: Vec<Sx> = vec![items[0].clone()];
+    base.extend(items[1..].iter().filter(|it| !ordered(it.head())).cloned());
+    let mut c = build_cmd_with(&base, env, &arg_ext, &|c, _| c);
+    for it in &items[1..] {
+        let l = it.args();
+        c = match it.head() {
+            "arg" => c.arg(arg_ext(build_arg(l, env), l)),
+            "sub" => c.subcommand(build_help_cmd(l[0].args(), env)),
+            "x-next-heading" => match l.first() {
+                Some(h) => c.next_help_heading(h.string()),
+                None => c.next_help_heading(None::<&'static str>),
+            },
+            _ => c,
+        };
+    }
+    cmd_ext(c, items)
 }
 
 fn toks(l: &[&str]) -> String {
@@ -269,7 +293,7 @@ fn help(a: &[Sx]) -> String {
     let mut env = EnvGuard(vec![]);
     let width = a[1].args()[0].num() as usize;
     let cmd = match catch_unwind(AssertUnwindSafe(|| {
-        let c = build_cmd_with(a[0].args(), &mut env, &arg_ext, &cmd_ext).term_width(width);
+        let c = build_help_cmd(a[0].args(), &mut env).term_width(width);
         let mut probe = c.clone();
         probe.build();
         c
